@@ -302,6 +302,8 @@ class LoopFn:
                 if y.get("kind") == "DeclRefExpr" and y["referencedDecl"].get("name") in self.cfg.get("globals", {}) and \
                         self.ident(y["referencedDecl"]["name"]) not in self.vars:
                     return k(self.cfg["globals"][y["referencedDecl"]["name"]])
+                if y.get("kind") == "BinaryOperator" and y.get("opcode") == "=":      # a = (b = c): the value just assigned
+                    return self.E(y, k)
                 if y.get("kind") == "ConditionalOperator":      # c ? a : b on two lvalues, read at once: the value of the chosen one
                     c, a, b = self.inner(y)
                     lv2rv = lambda z: {"kind": "ImplicitCastExpr", "castKind": "LValueToRValue", "type": z.get("type"), "inner": [z]}
